@@ -17,7 +17,16 @@ META = {
     "note": ("Trusted: Lean kernel (propext, Classical.choice, Quot.sound); extract/c01.go; harness/c01.go; the modelling of os.File "
              "as a byte string (append, in-place 64-byte header rewrite); snappy and CRC-32 are parameters of every theorem (the "
              "driver's executable snappy decoder / CRC-32 are differential-tested on every real block). Explicit physical bounds: "
-             "payload and block size <= 1 GiB, swamp name < 65536 bytes (C29 covers longer names)."),
+             "payload and block size <= 1 GiB, swamp name < 65536 bytes (C29 covers longer names). Chronicler layer: entryOf/chronWrite "
+             "(Hv/Storage/ChronWrite.lean) model Write's INSERT/UPDATE/DELETE choice, insert_update_equivalent proves the choice is "
+             "replay-irrelevant, Holds.apiRejects demands that a refused treasure is reported (currently violated: recorded finding). "
+             "Exports: inserts_roundtrip (fresh file from distinct-key encodable INSERTs loads back exactly, with its name) is the "
+             "byte-level discharge of C23's V2.Lawful on keys of 1..65535 bytes and names < 2^16. Relation to the block-granular "
+             "model Hv.BlockStore (C02/C03/C25): its assumption (A1) 'the payload written for a header decodes to that block's "
+             "entries' is Hv.Storage.readNextBlock_encodeBlock, which needs GoodBlock (every entry Encodable, < 65536 entries, "
+             "< 2 GiB) — i.e. the block model's results hold on acknowledged writes only because WriteEntry now rejects "
+             "unencodable keys and Add flushes at 65535 entries (it hard-codes '>=' flush, no count flush, accepts every key); its "
+             "(A2) 'anything else fails the checksum' is readNextBlock_crc_mismatch, true up to the 2^-32 CRC residual."),
     "design_ref": "§8 C01",
 }
 
@@ -26,6 +35,8 @@ FINDINGS = {
     "C01-long-key-accepted": "WriteEntry accepts a key longer than 65535 bytes; its 16-bit length field wraps and the file no longer loads (or loads different records)",
     "C01-block-entry-count-overflow": "a block with more than 65535 buffered entries wraps the 16-bit EntryCount; the extra entries are silently dropped on load",
     "C01-delete-not-replayed": "LoadIndex does not remove keys on OpDelete",
+    "C01-chronicler-drops-refused-entry": ("chroniclerV2.Write only logs an entry the writer refuses (empty / >65535-byte key) and has no result: "
+                                           "the swamp and the gateway have already acknowledged the record, which is gone after a reload"),
 }
 
 DRV_FACTS = ["rejectsEmptyKey", "rejectsLongKey", "flushCmp", "flushAtCount", "deleteRemoves"]
@@ -74,7 +85,7 @@ def run(ctx):
     known = K.known_ids(ctx.pid)
     oracle_hits = {}
     if not c.err:
-        for i, what, sig in S.history_oracle(c.ops, c.impl):
+        for i, what, sig in S.history_oracle(c.ops, c.impl, api_validates=facts.get("apiValidatesKeys") == "yes"):
             oracle_hits.setdefault(sig, []).append((i, what))
     for sig, hits in oracle_hits.items():
         i, what = hits[0]
